@@ -938,6 +938,9 @@ def rule_d(ctx):
                     operand = call.func.value
                 elif isinstance(call.func, ast.Name) and call.func.id == "int" and len(call.args) == 1:
                     operand = call.args[0]
+                elif norm(call.func) in ("np.array", "np.asarray", "np.asanyarray", "np.ascontiguousarray") and call.args \
+                        and any(k.arg == "dtype" and norm(k.value) in INT_TYPES for k in call.keywords):
+                    operand = call.args[0]   # np.array(x, dtype=int) converts like x.astype(int): truncation toward zero
                 if operand is None:
                     continue
                 n += 1
@@ -974,6 +977,18 @@ def rule_d(ctx):
                     if f.qname in position_paths and r is not None and not r.startswith("integral"):
                         ctx.ob(R, f.qname, f"store into integer buffer {norm(st.targets[0])} rounds with floor", r in ("np.floor", "numpy.floor", "math.floor"),
                                f"rounding function is {r}", st)
+    # the point factories hand the values on as they are (floats stay the floats they were): no rounding / clipping of coordinates on the way
+    CHANGING = ("np.round", "np.around", "round", "np.clip", "np.trunc", "np.rint", "np.fix")
+    for fname in ("make_coordinate", "make_voxel_center"):
+        fm = m.mod(PT).funcs.get(fname)
+        if fm is None:
+            continue
+        n += 1
+        ctx.instance(R)
+        calls_ = [c_ for c_ in ast.walk(fm.node) if isinstance(c_, ast.Call) and (norm(c_.func) in CHANGING or (isinstance(c_.func, ast.Attribute) and c_.func.attr in ("round", "clip")))]
+        ctx.ob(R, fm.qname, f"{fname} keeps the values it is given", not calls_,
+               f"`{norm(calls_[0])[:70]}` changes the coordinates on the way into the point object: positions (origins, corners, voxel sizes derived from them) move by up to the rounding step -- "
+               "for voxels of that size by a sizeable fraction of a voxel" if calls_ else "", calls_[0] if calls_ else fm.node, evidence=True)
     ctx.floor(R, 4)
     ctx.stat("int_casts_checked", n)
 
